@@ -219,7 +219,8 @@ impl BuiltInFunction {
                         let mut result = self.map_result.0.borrow_mut();
 
                         if let ReturnValue::Value(value) = return_value {
-                            result.push(value);
+                            // the mapped list holds values, not views of the slots they were read from
+                            result.push(value.move_out_of_heap_primitive()?);
                         }
 
                         Ok((self.index.get() as usize) < self.underlying.0.borrow().len())
